@@ -161,9 +161,52 @@ fn gen_string(rng: &mut Rng, max: usize) -> String {
     let n = if rng.chance(12) { 0 } else { rng.range(1, max) };
     let mut s = String::new();
     for _ in 0..n {
+        if rng.chance(6) {
+            // any scalar value: a character must not matter because of the octets it is made of
+            s.push(crate::gen::random_scalar(rng));
+            continue;
+        }
         s.push_str(CHARS[rng.weighted(&[10, 6, 3, 6, 6, 5, 5, 4, 3, 3, 2, 2])]);
     }
     s
+}
+
+/// "Tokens carry exactly the characters typed (any UTF-8)": every scalar value inside a bare token, alone, and inside a
+/// quoted token next to a blank
+pub fn run_scalars(args: &Args, rep: &mut Report) {
+    const CHUNK: u32 = 0x1000;
+    let chunks = (0x110000 / CHUNK) as u64;
+    run_cases(args, "C07", chunks, rep, &mut |c, rep| {
+        if !mine(args, c) {
+            rep.cases -= 1;
+            return;
+        }
+        let lo = c as u32 * CHUNK;
+        let mut n = 0u64;
+        for u in lo..lo + CHUNK {
+            let ch = match char::from_u32(u) {
+                Some(ch) if u > 0x20 && u != 0x7f && ch != '"' && ch != '\\' => ch,
+                _ => continue,
+            };
+            n += 1;
+            let line = format!("a{c}b {c}  \"{c} x\" {c}{c}", c = ch);
+            let want = vec![format!("a{}b", ch), ch.to_string(), format!("{} x", ch), format!("{}{}", ch, ch)];
+            rep.evaluations += 1;
+            match real_tokenize(&line) {
+                Ok(got) if got == want => {}
+                Ok(got) => {
+                    report(rep, args, "C07", "tokenize", &format!("scalar-{}byte", ch.len_utf8()), c, 1, J::s(format!("U+{:04X}", u)), format!("line {:?} (U+{:04X}) -> {:?}, expected {:?}", line, u, got, want));
+                    break;
+                }
+                Err(e) => {
+                    report(rep, args, "C07", "token-invalid", &format!("scalar-{}byte", ch.len_utf8()), c, 1, J::s(format!("U+{:04X}", u)), format!("line {:?} (U+{:04X}): {}", line, u, e));
+                    break;
+                }
+            }
+        }
+        rep.distinct_disjoint += n;
+        rep.count_n("c07.scalars", n);
+    });
 }
 
 /// renderings of a list that the statement says must tokenise back to exactly that list
